@@ -1,11 +1,11 @@
 package props
 
 import (
-	"os"
 	"bytes"
 	"compress/gzip"
 	"encoding/binary"
 	"fmt"
+	"os"
 	"reflect"
 	"runtime"
 	"sync"
@@ -257,8 +257,8 @@ func (c16) Run(e *simkit.Env, cc any) {
 		simkit.StopNode(e, cn, false, 0)
 	}()
 	var mu sync.Mutex
-	var stream []int      // background numbers received on A from B
-	var victimGot []any   // whatever reaches the victim process
+	var stream []int    // background numbers received on A from B
+	var victimGot []any // whatever reaches the victim process
 	var localGot int
 	bh := &Hooks{Name: "bystander", Env: e}
 	bh.Message = func(p *Probe, from gen.PID, m any) error {
